@@ -137,6 +137,7 @@ func (r *MemoryModelRegistry) RegisterModels(ctx context.Context, endpointURL st
 	}
 
 	modelsCopy := make([]*domain.ModelInfo, 0, len(models))
+	seen := make(map[string]struct{}, len(models))
 	for _, model := range models {
 		if model == nil {
 			continue // Skip nil models
@@ -144,6 +145,12 @@ func (r *MemoryModelRegistry) RegisterModels(ctx context.Context, endpointURL st
 		if model.Name == "" {
 			return domain.NewModelRegistryError("register_models", endpointURL, model.Name, fmt.Errorf("model name cannot be empty"))
 		}
+		// a listing that repeats a name still describes one model of this endpoint: listing,
+		// lookup and the per-endpoint counts must agree on that
+		if _, dup := seen[model.Name]; dup {
+			continue
+		}
+		seen[model.Name] = struct{}{}
 
 		modelsCopy = append(modelsCopy, &domain.ModelInfo{
 			Name:        model.Name,
